@@ -35,6 +35,9 @@ def run(rep):
     rep.run(C11.anchor_selection, "O5.1")
     rep.alias = {"O11.4": "O5.1"}
     rep.run(C11.consistency)
+    rep.alias = {"O11.4": "O5.1", "O11.3": "O5.1", "O11.2": "O5.1"}
+    rep.run(C11.dedup_key)
+    rep.run(C11.estimate)
     rep.alias = {"O6.4": "O5.2", "O6.5": "O5.2"}
     rep.run(C06.fallback_and_dispatch)
     rep.run(_comp_fallback)
